@@ -125,6 +125,10 @@ def cases(tier, seed):
         for N in (40, 300):
             for order in ("asc", "desc", "inside_out"):
                 out.append({"kind": "Objective", "api": api, "chain": N, "order": order, "rho0": 1.0 if api == "filter_insert" else 1e-300, "fine": True})
+    # double precision, coordinates that differ by single units in the last place
+    for api in ["update", "filter_insert"]:
+        for order in ("asc", "desc", "inside_out"):
+            out.append({"kind": "Objective", "api": api, "chain": 60, "order": order, "rho0": 1.0 if api == "filter_insert" else 1e-300, "ulp": True})
     # E5: TLC-enumerated state graph of tla/PenaltyFilter.tla, every edge replayed on the implementation
     out.append({"kind": "tlc", "V": [0, 1, 2], "K": 2, "rho0": 1e-8})
     if tier == "thorough":
@@ -243,7 +247,7 @@ def chain_case(case):
     fine = bool(case.get("fine"))
     f = make_filter(kind, case["rho0"], single=fine)
     ref = RefFilter(case["rho0"])
-    co = (lambda k: 1.0 + k * 2.0 ** -40) if fine else (lambda k: k)
+    co = (lambda k: 1.0 + k * 2.0 ** -40) if fine else ((lambda k: 1.0 + k * 2.0 ** -52) if case.get("ulp") else (lambda k: k))
     idx = list(range(N))
     if case["order"] == "desc":
         idx.reverse()
@@ -289,7 +293,7 @@ def chain_case(case):
         for i in range(0, N - 6, max(1, N // 40)):  # dominates entries i .. i+5
             if not do(2 * i + 1, 2 * (N - i - 5) + 1, f"point dominating entries {i}..{i + 5}"):
                 break
-    return {"outcome": "chain-ok" if not viol else "violating", "key": f"chain|{kind}|{api}|{N}|{case['order']}|{fine}", "violations": viol[:2],
+    return {"outcome": "chain-ok" if not viol else "violating", "key": f"chain|{kind}|{api}|{N}|{case['order']}|{fine}|{case.get('ulp')}", "violations": viol[:2],
             "stats": {"transitions": n_ev, "states": n_ev, "chain_max": N}}
 
 
